@@ -69,7 +69,7 @@ def run(module, cfg=None, workers=16, timeout=900, env=None, simulate=None, dept
             f.write(cfg_text)
     cfg = cfg or (module + '.cfg')
     meta = os.path.join(wd, 'meta')
-    jopts = ['-XX:+UseParallelGC', '-Djava.io.tmpdir=' + wd]    # (TLC leaves an empty tlc-<n> directory in java.io.tmpdir)
+    jopts = ['-XX:+UseParallelGC', '-Xss512m', '-Djava.io.tmpdir=' + wd]    # (TLC leaves an empty tlc-<n> directory in java.io.tmpdir)
     if heap:
         jopts.append('-Xmx' + heap)
     if dfs:
